@@ -379,6 +379,11 @@ def gen_fault(rng):
     u = 900 + rng.below(90)
     kind, text = rng.choice(SAVES)
     cmds = pre + [('mod', '1s/^/F%d /' % u, None)]
+    if len(files) >= 2 and rng.chance(1, 3):
+        # a modified buffer that is NOT the current one when the save comes (xa writes it, q / wq / x must see it)
+        cmds = [('mod', '1s/^/F%d /' % u, None), ('eforce', 'e! f2.txt', 'f2.txt')]
+        if rng.chance(1, 2):
+            cmds.append(('mod', '1s/^/H%d /' % u, None))
     if rng.chance(1, 4):
         cmds.append(('mod', '$s/$/ G%d/' % u, None))
     cmds.append((kind, text, None))
@@ -533,7 +538,8 @@ def oracle_history(files, cmds, obs, exited_at, snaps, fault=None, final=None, n
             if any(dirty_before.values()):
                 if gone:
                     p = sorted(p for p in dirty_before if dirty_before[p])[0]
-                    return (k, ':q exited although buffer %s differs from its file: the changes are discarded' % p,
+                    return (k, ':%s exited although buffer %s differs from its file%s: the changes are discarded' % (ctext.split()[0] if ctext.split()[0] in ('wq', 'x', 'xa') else 'q', p,
+                                ' (the content it had when last read or last successfully written)' if fault else ''),
                             'refusal; text of %s = %r, file = %r' % (p, text[p], content.get(p)), 'editor exited')
             elif all(saved_state_before.values()):
                 if not gone:
@@ -605,7 +611,8 @@ def oracle_history(files, cmds, obs, exited_at, snaps, fault=None, final=None, n
             elif saved_state_before[prev_cur]:
                 if refused:
                     return (k, '%r was refused although the current buffer %s is in its saved state' % (ctext, prev_cur), 'allowed', 'buffer modified')
-        if kind == 'q' and ctext != 'xa' and any(dirty_before.values()):
+        # (under the shim: a wq / x whose own write part failed stays where it is because of that failure, not because of the scan)
+        if kind == 'q' and ctext != 'xa' and any(dirty_before.values()) and not any(v != 'saved' for v in sv_here.values()):
             starred = {p for (_, _, p, f) in obs[k - 1]['listing'] if f == '*'}
             if not dirty_before.get(cur, False) and cur not in starred:      # a buffer reported modified while equal to its file (e.g. :e! then u) may be the one
                 return (k, ':q was refused but did not switch to a buffer that differs from its file or is reported modified', 'a modified buffer current', cur)
